@@ -302,6 +302,12 @@ void SocketImpl::DriverPending()
   assert(false);
 }
 
+bool SocketImpl::DriverReceivePending() const
+{
+  // only the TLS socket may hold received data that poll does not know of
+  return false;
+}
+
 
 size_t ReceiveNow(SOCKET fd, char *data, size_t size)
 {
